@@ -227,6 +227,15 @@ pub fn snapshot(r: &Result<QRCode, fast_qr::qr::QRCodeError>) -> Snapshot {
     }
 }
 
+/// snapshot of a build including "it panicked" as a result kind (whether it may panic is C10's question;
+/// here only determinism matters)
+fn snap_build(b: &QRBuilder) -> Snapshot {
+    match catch(|| snapshot(&b.build())) {
+        Ok(s) => s,
+        Err(_) => Snapshot { kind: 3, bytes: vec![], size: 0, fields: [-1; 4] },
+    }
+}
+
 fn fresh_build(input: &[u8], o: &Opts) -> QRBuilder {
     BuildCase::new(input.to_vec(), o.clone()).builder()
 }
@@ -272,13 +281,13 @@ pub fn check_history(h: &History, obs: &mut Obs) -> Result<(), Fail> {
                 shared.mask(f_mask(*m));
             }
             Op::BuildOther(bc) => {
-                let _ = pc("unrelated build", || bc.builder().build().map(|_| ()))?;
+                let _ = snap_build(&bc.builder());
             }
             Op::Build => {
                 builds += 1;
-                let a = pc("build", || snapshot(&shared.build()))?;
-                let again = pc("second build on the same builder", || snapshot(&shared.build()))?;
-                let fresh = pc("fresh build", || snapshot(&fresh_build(&h.input, &model).build()))?;
+                let a = snap_build(&shared);
+                let again = snap_build(&shared);
+                let fresh = snap_build(&fresh_build(&h.input, &model));
                 ensure!(a == again, "rebuild_differs", "op {}: building twice on the same builder gives {:?} then {:?} (history {})", i, a, again, hist_json(h));
                 if a != fresh {
                     let what = if a.kind != fresh.kind {
@@ -293,9 +302,9 @@ pub fn check_history(h: &History, obs: &mut Obs) -> Result<(), Fail> {
                         format!("op {}: build after this setter history gives {:?}, a fresh builder with the final options {:?} gives {:?} ({} differ; history {})", i, a, model, fresh, what, hist_json(h)),
                     );
                 }
-                last = match pc("build", || shared.build().ok().map(Box::new))? {
-                    Some(q) => Some(q),
-                    None => last,
+                last = match catch(|| shared.build().ok().map(Box::new)) {
+                    Ok(Some(q)) => Some(q),
+                    _ => last,
                 };
             }
             Op::RenderText => {
@@ -386,6 +395,15 @@ fn round_json(r: &Round) -> Value {
 }
 
 fn digest(bc: &BuildCase, render: bool) -> Result<(Snapshot, u64), String> {
+    let r = digest_inner(bc, render);
+    match r {
+        Ok(x) => Ok(x),
+        // a panicking build is a (deterministic or not) result like any other
+        Err(_) => Ok((Snapshot { kind: 3, bytes: vec![], size: 0, fields: [-1; 4] }, 0)),
+    }
+}
+
+fn digest_inner(bc: &BuildCase, render: bool) -> Result<(Snapshot, u64), String> {
     catch(|| {
         let r = bc.builder().build();
         let mut h = 0u64;
